@@ -18,6 +18,26 @@ import re
 from . import driver, graphs, ref, vk as vkmod
 
 CACHE_TS = 1_600_000_000
+# the fake repository of git cases: c1 <- c2 (HEAD), c3 is a side commit on c1 that is NOT an ancestor of HEAD
+FAKE_COMMITS = {"c1" * 20: [], "c2" * 20: ["c1" * 20], "c3" * 20: ["c1" * 20]}
+FAKE_REFS = {"tag-c1": "c1" * 20, "tag-c2": "c2" * 20, "main": "c2" * 20, "HEAD": "c2" * 20}
+
+
+def cached_versions(case, k):
+    """[(timestamp, commit)] recorded for node k in this case (see make_scenario)."""
+    cached = case.get("cached") or {}
+    if isinstance(cached, list):
+        cached = {str(i): None for i in cached}
+    if str(k) not in cached:
+        return []
+    spec = cached[str(k)]
+    ts = CACHE_TS + int(k)
+    if isinstance(spec, list):
+        return [(ts - 100 * (len(spec) - 1 - j), c) for j, c in enumerate(spec)]
+    out = [(ts, spec)]
+    if case.get("two_versions"):
+        out.insert(0, (ts - 500, spec))
+    return out
 
 
 def make_scenario(case):
@@ -53,15 +73,11 @@ def make_scenario(case):
     cached = case.get("cached") or {}
     if isinstance(cached, list):
         cached = {str(i): None for i in cached}
-    for k, commit in cached.items():
+    for k in cached:
         i = int(k)
-        ts = CACHE_TS + i
-        if case.get("two_versions"):
-            # an older version recorded at the same commit: ties are broken towards the newest
-            rows.append([ids[i], ts - 500, commit, 0])
-            pre_tree[os.path.join("cond-out", pkgs[i], "t%d.task.%d" % (i, ts - 500), "older")] = "older\n"
-        rows.append([ids[i], ts, commit, 0])
-        pre_tree[os.path.join("cond-out", pkgs[i], "t%d.task.%d" % (i, ts), "old")] = "cached\n"
+        for ts, commit in cached_versions(case, k):
+            rows.append([ids[i], ts, commit, 0])
+            pre_tree[os.path.join("cond-out", pkgs[i], "t%d.task.%d" % (i, ts), "old")] = "cached %d\n" % ts
     argv = ["run", ids[0]]
     if case.get("at_least"):
         argv += ["--at-least", case["at_least"]]
@@ -76,10 +92,14 @@ def make_scenario(case):
         "index_rows": rows if rows or case.get("empty_index") else None,
         "unrelated": case.get("unrelated") or False, "case": case,
     }
+    if case.get("outer_env"):
+        # cond itself started from inside a task of another Conductor project (or with COND_* exported in the shell)
+        scn["env"] = {"COND_OUT": "/outer/cond-out/outer.task", "COND_DEPS": "/outer/cond-out/d1.task:/outer/cond-out/d2.task",
+                      "COND_NAME": "outer-task", "COND_SLOT": "7"}
     if case.get("git"):
         # two commits c1 <- c2 (HEAD)
-        scn["git"] = {"commits": {"c1" * 20: [], "c2" * 20: ["c1" * 20]}, "head": "c2" * 20, "is_repo": True,
-                      "dirty": bool(case.get("dirty")), "refs": {"tag-c1": "c1" * 20, "tag-c2": "c2" * 20, "main": "c2" * 20}}
+        scn["git"] = {"commits": dict(FAKE_COMMITS), "head": "c2" * 20, "is_repo": True,
+                      "dirty": bool(case.get("dirty")), "refs": {k: v for k, v in FAKE_REFS.items() if k != "HEAD"}}
     return scn
 
 
@@ -177,17 +197,29 @@ def summarize(obs):
     return s
 
 
+def selected_version(case, k):
+    """The version of node k the documented rule selects in this case (None = none usable)."""
+    vs = cached_versions(case, k)
+    if not vs:
+        return None
+    if case.get("git"):
+        return ref.select_version(vs, "git", FAKE_COMMITS, "c2" * 20)
+    return ref.select_version(vs, "nogit")
+
+
 def effective_cached(case):
-    """Nodes whose existing version satisfies the invocation (reference for the 2-commit fake repository)."""
+    """Nodes whose recorded versions satisfy the invocation (reference: ref.select_version / ref.at_least_rerun)."""
     cached = case.get("cached") or {}
     if isinstance(cached, list):
         cached = {str(i): None for i in cached}
     out = set()
-    for k, commit in cached.items():
+    for k in cached:
+        sel = selected_version(case, k)
+        if sel is None:
+            continue
         if case.get("at_least"):
-            # re-run iff no commit or strict ancestor of the requested commit (c1 < c2)
-            target = {"tag-c1": "c1" * 20, "tag-c2": "c2" * 20, "main": "c2" * 20, "HEAD": "c2" * 20}.get(case["at_least"], case["at_least"])
-            if commit is None or (commit != target and commit == "c1" * 20):
+            target = FAKE_REFS.get(case["at_least"], case["at_least"])
+            if ref.at_least_rerun(sel, FAKE_COMMITS, target):
                 continue
         out.add(int(k))
     return out
